@@ -14,10 +14,10 @@ EXTENDS Api
 
 Trace == ndJsonDeserialize(IOEnv.VERIF_TRACE)
 
-VARIABLES l, cur, ndev, deep, rej, objin, spans
-traceVars == <<l, cur, ndev, deep, rej, objin, spans, used, cfg, ncalls>>
+VARIABLES l, cur, ndev, deep, rej, objin, spans, regst
+traceVars == <<l, cur, ndev, deep, rej, objin, spans, regst, used, cfg, ncalls>>
 
-TraceInit == TLCSet(1, <<>>) /\ ApiInit /\ l = 1 /\ cur = [vals |-> <<>>, prop |-> ""] /\ ndev = 0 /\ deep = <<>> /\ rej = <<>> /\ objin = <<>> /\ spans = <<>>
+TraceInit == TLCSet(1, <<>>) /\ ApiInit /\ l = 1 /\ cur = [vals |-> <<>>, prop |-> ""] /\ ndev = 0 /\ deep = <<>> /\ rej = <<>> /\ objin = <<>> /\ spans = <<>> /\ regst = RegInit(-1)
 
 Line == Trace[l]
 IsEvent(e) == l <= Len(Trace) /\ Line.ev = e
@@ -30,7 +30,7 @@ DeepKey(ty, pattern) == ty \o "/" \o pattern
 DeepTrack(ty, pattern) ==
   IF DeepKey(ty, pattern) \in DOMAIN deep THEN deep[DeepKey(ty, pattern)] ELSE [maxok |-> 0, minrej |-> -1]
 
-CallEvents == {"Size", "Encode", "Decode", "Deep", "Reject", "Legacy", "Allocs", "Par", "Walk", "Recheck", "Hooks"}
+CallEvents == {"Size", "Encode", "Decode", "Deep", "Reject", "Legacy", "Allocs", "Par", "Walk", "Recheck", "Hooks", "Reg"}
 
 \* rejected calls seen so far in the whole trace: (type, entry, argument kind) -> outcome
 RejKey == Line.ty \o "/" \o Line.entry \o "/" \o Line.arg
@@ -63,6 +63,7 @@ Judge ==
                                            ELSE {})])
     [] Line.ev = "Deep" -> JDeep(Line, DeepTrack(Line.ty, Line.pattern))
     [] Line.ev = "Hooks" -> JHooks(Line, spans)
+    [] Line.ev = "Reg" -> JReg(Line, regst)
     [] Line.ev = "Walk" -> JWalk(Line, objin)
     [] Line.ev = "Recheck" -> JRecheck(Line)
     [] Line.ev = "Par" -> JPar(Line)
@@ -90,6 +91,8 @@ ScenarioProps(v) ==
   IF v \cap {"dec_val", "dec_n", "dec_accept", "enc_bytes", "enc_ok", "size_exact", "size_ok", "enc_n"} # {} /\
      cur.prop \in {"C09", "C10", "C11", "C12", "C14"}
   THEN {cur.prop}
+  ELSE IF cur.prop = "C12" /\ v \cap {"nocopy_exact", "nocopy_follows", "walk_noinput"} # {}
+  THEN {"C12"}       \* C12: the nocopy option takes effect under every spelling of the tag
   ELSE IF cur.prop = "C16" /\ v \cap {"enc_bytes", "enc_ok", "enc_n"} # {}
   THEN {"C16"}       \* C16: encoding the same unmodified value again yields the same bytes
   ELSE {}
@@ -102,18 +105,22 @@ Count(c) ==
   LET st == TLCGet(1) IN
   TLCSet(1, IF c \in DOMAIN st THEN [st EXCEPT ![c] = @ + 1] ELSE st @@ (c :> 1))
 
+CountN(c, n) ==
+  LET st == TLCGet(1) IN
+  TLCSet(1, IF c \in DOMAIN st THEN [st EXCEPT ![c] = @ + n] ELSE st @@ (c :> n))
+
 TraceScenario ==
   /\ IsEvent("Scenario")
   /\ cur' = [vals |-> Line.vals, prop |-> Line.prop]
   /\ l' = l + 1
   /\ deep' = <<>>      \* thresholds are tracked per scenario
   /\ objin' = <<>>
-  /\ UNCHANGED <<ndev, rej, spans, used, cfg, ncalls>>
+  /\ UNCHANGED <<ndev, rej, spans, regst, used, cfg, ncalls>>
 
 \* a call whose observed outcome the specification allows
 TraceCall ==
   /\ l <= Len(Trace) /\ Line.ev \in CallEvents
-  /\ objin' = IF Line.ev = "Decode" /\ Line.obs.out = "ok" /\ "thr" \notin DOMAIN Line /\ cur.prop \in {"C06", "C14"}
+  /\ objin' = IF Line.ev = "Decode" /\ Line.obs.out = "ok" /\ "thr" \notin DOMAIN Line /\ cur.prop \in {"C06", "C12", "C14"}
               THEN (ToString(Line.step) :> [ty |-> Line.ty, in |-> Line.in]) @@ objin ELSE objin
   /\ rej' = IF Line.ev = "Reject" /\ Line.obs.out # "crash" THEN (RejKey :> RejSig(Line.obs)) @@ rej ELSE rej
   /\ deep' = IF Line.ev # "Deep" THEN deep
@@ -125,10 +132,12 @@ TraceCall ==
   /\ LET j == Judge
          v == j.fail IN
      /\ spans' = IF Line.ev = "Hooks" /\ "sp" \in DOMAIN j THEN j.sp ELSE spans
+     /\ regst' = IF Line.ev = "Reg" /\ "rg" \in DOMAIN j THEN j.rg ELSE regst
+     /\ IF Line.ev = "Reg" /\ "kinds" \in DOMAIN j THEN \A k \in DOMAIN j.kinds : CountN("RegSection>" \o k, j.kinds[k]) ELSE TRUE
      /\ IF v = {} THEN ndev' = ndev ELSE Report(v) /\ ndev' = ndev + 1
      /\ Count(j.cls)
      /\ IF Line.ev = "Legacy" THEN LegacyCall(Line.call)
-        ELSE IF Line.ev \in {"Par", "Walk", "Recheck", "Hooks"} THEN UNCHANGED apiVars
+        ELSE IF Line.ev \in {"Par", "Walk", "Recheck", "Hooks", "Reg"} THEN UNCHANGED apiVars
         ELSE Call(Line.ty)
   /\ l' = l + 1
   /\ UNCHANGED cur
@@ -137,7 +146,7 @@ TraceCall ==
 TraceOther ==
   /\ l <= Len(Trace) /\ Line.ev \notin CallEvents \cup {"Scenario"}
   /\ l' = l + 1
-  /\ UNCHANGED <<cur, ndev, deep, rej, objin, spans, used, cfg, ncalls>>
+  /\ UNCHANGED <<cur, ndev, deep, rej, objin, spans, regst, used, cfg, ncalls>>
 
 TraceNext == TraceScenario \/ TraceCall \/ TraceOther
 
